@@ -531,6 +531,15 @@ def run(ck):
                   or (c["entry"] == "integrate2" and c.get("method") in (None, "lsoda", "vode", "ivode"))]
         for call, cls, what in sweep(ck, spec, grid, cs, stats, cases):
             violations.append((spec, grid, call, cls, what))
+    # ---- the accepted types of x0 / t0 / requested times
+    for xn in X0_TYPES:
+        for tn in T0_TYPES:
+            for gn in GRID_TYPES:
+                for ent in ("integrate", "integrate2", "solve_determ"):
+                    bad = types_check((xn, tn, gn, ent))
+                    ck.case(dict(kind="types", combo=[xn, tn, gn, ent]), nontrivial=True)
+                    if bad:
+                        ck.violation("input-type/" + ent, bad, dict(kind="types", combo=[xn, tn, gn, ent]))
     # ---- extra arguments of func / jac (the sensitivity systems hand their arrangement over this way)
     for call in calls:
         if call["entry"] != "integrateFuncJac":
@@ -688,6 +697,41 @@ def dispatch_cases(ck, rng):
     return dict(eig=len(eig_cases), methods=len(meth_cases), disagreements=len(bad_e) + len(bad_m))
 
 
+X0_TYPES = {"list": list, "tuple": tuple, "array": lambda v: np.array(v, dtype=float), "float32-array": lambda v: np.array(v, dtype=np.float32)}
+T0_TYPES = {"float": float, "np.float64": np.float64, "int": int, "np.int64": np.int64, "np.float32": np.float32}
+GRID_TYPES = {"array": lambda g: np.array(g, dtype=float), "list": list, "tuple": tuple, "float32-array": lambda g: np.array(g, dtype=np.float32),
+              "scalar": lambda g: float(g[-1]), "np.float64-scalar": lambda g: np.float64(g[-1]), "int-scalar": lambda g: int(g[-1])}
+
+
+_TYPES_CTX = {}
+
+
+def types_check(combo):
+    """the same problem with the initial state, the initial time and the requested times handed over as other (accepted) Python /
+    numpy types: the same solution.  combo = (x0 type, t0 type, grid type, entry point) -> None or what fails"""
+    import pg
+    xn, tn, gn, ent = combo
+    spec = dict(spec_catalogue("SIR_norm"), t0=1.0)
+    grid = [2.0, 3.0, 5.0]            # (exactly representable in every type used here)
+    if "ref" not in _TYPES_CTX:
+        _TYPES_CTX["ref"], _TYPES_CTX["m"] = reference(spec, grid), build(spec)     # one model object for the whole sweep
+    ref, m = _TYPES_CTX["ref"], _TYPES_CTX["m"]
+    try:
+        with pg.quiet(), warnings.catch_warnings():
+            warnings.simplefilter("ignore")
+            m.initial_values = (X0_TYPES[xn](spec["x0"]), T0_TYPES[tn](spec["t0"]))
+            r = getattr(m, ent)(GRID_TYPES[gn](grid))
+    except Exception as e:      # noqa: B902
+        return "%s with x0 as %s, t0 as %s, times as %s raised %s: %s" % (ent, xn, tn, gn, type(e).__name__, str(e)[:120])
+    rows = np.asarray(r, dtype=float)
+    want = ref if "scalar" not in gn else ref[[0, -1]]
+    tol = 1e-5 if xn == "float32-array" else (TOL_ODEINT if ent != "integrate2" else TOL_ODE)     # float32(0.99) is 0.99 to 2e-8
+    if not close(rows, want, tol):
+        return ("%s with x0 as %s, t0 as %s, times as %s returns %s, the solution at the requested times (after the initial state) is %s"
+                % (ent, xn, tn, gn, rows.tolist(), want.tolist()))
+    return None
+
+
 def args_check(call):
     """integrateFuncJac(func, jac, ..., args=(k,)): func and jac are given the extra argument on the whole grid.
     y0' = -k y0, y1' = k y0 - c y1 (closed form); the default k of func differs from the one handed over"""
@@ -726,6 +770,8 @@ def replay(ck, data):
         return None
     if inp.get("kind") == "args":
         return args_check(inp["call"])
+    if inp.get("kind") == "types":
+        return types_check(tuple(inp["combo"]))
     spec, grid, call = inp["spec"], inp["grid"], inp["call"]
     if inp.get("kind") == "sequence-initial_time":
         m = build(spec)
